@@ -278,6 +278,16 @@ func genRef(r *Rand, p *Plan, tier string, focus string) {
 			scripts = append(scripts, s)
 		}
 		cs.Ops = Interleave(r, scripts, r.Chance(30))
+		if focus == "C07" && r.Chance(12) {
+			// a used sequence number replayed inside a multi-packet login
+			for _, sc := range scripts {
+				if sc.Tag == "ascii" && len(sc.Pkts) >= 3 {
+					sc.Pkts[2].Seq = PickOf(r, sc.Pkts[1].Seq, sc.Pkts[0].Seq, sc.Pkts[1].Seq-2)
+					break
+				}
+			}
+			cs.Ops = Interleave(r, scripts, false)
+		}
 		if focus == "C07" && r.Chance(20) {
 			// rejection workloads: a sequence violation or an invalid header at the end
 			bad := *scripts[0].Pkts[0]
@@ -323,6 +333,14 @@ func genRef(r *Rand, p *Plan, tier string, focus string) {
 			}
 		}
 		p.Scen.Clients = append(p.Scen.Clients, cs)
+	}
+	if focus == "C12" && len(p.Scen.Clients) >= 2 && r.Chance(40) {
+		// concurrent accounting of one user on several connections, with the sink slow
+		// to take its argument
+		p.Park = append(p.Park, "sink")
+		if r.Bool() {
+			p.Mode = "batch"
+		}
 	}
 	p.Tape = r.Tape(1200)
 	p.MaxSteps = 5000
@@ -918,6 +936,19 @@ func genC15(r *Rand, p *Plan, tier string) {
 		cs.Ops = append(cs.Ops, Op{Kind: PickOf(r, "close", "close", "idle", "reset")})
 		p.Scen.Clients = append(p.Scen.Clients, cs)
 	}
+	if r.Chance(20) {
+		// shutdown racing with an accept: cancellation becomes enabled in the very step
+		// in which a client dials, and the shutdown path yields at its log calls
+		p.Family = "race-batches"
+		k := r.Intn(len(p.Scen.Clients))
+		at := 2 + r.Intn(12)
+		p.Scen.Clients[k].NotBefore = at
+		p.Scen.Ctl = append(p.Scen.Ctl, Ctl{Kind: "cancel", NotBefore: at})
+		p.Park = []string{PickOf(r, "log:waiting for [", "log:Stopping server listener", "log:waiting for [")}
+		p.Tape = r.Tape(2500)
+		p.MaxSteps = 4000
+		return
+	}
 	// make lookups and reloads co-runnable: some client dials in the very step in which
 	// a publication becomes enabled
 	for _, c := range p.Scen.Ctl {
@@ -930,7 +961,7 @@ func genC15(r *Rand, p *Plan, tier string) {
 	}
 	// in race runs an armed site is a yield point inside the handler (see World.QuietYield)
 	if r.Chance(70) {
-		p.Park = append(p.Park, PickOf(r, "log:record", "log:detected user", "log:detected user", "log:[%v] user", "log:accepting user", "log:failed to validate", "sink", "log:prefix secret provider", "log:remote"))
+		p.Park = append(p.Park, PickOf(r, "log:record", "log:detected user", "log:detected user", "log:[%v] user", "log:accepting user", "log:failed to validate", "sink", "log:prefix secret provider", "log:remote", "log:Stopping server listener", "log:waiting for [", "log:Stopping server listener"))
 	}
 	p.Tape = r.Tape(2500)
 	p.MaxSteps = 4000
